@@ -35,7 +35,12 @@ f += ["", "Observations that are *not* findings (no listed property is broken): 
       "scope maps in the backing array of `Cache.Cache`, and `cbor.Unmarshal` merges the next session's scopes",
       "into them (reported by a sub-agent, probed: needs sessions whose scopes hold different keys) — every listed",
       "property gives each session its own state/cache objects, so this is outside them; `state.SetFlag`'s range",
-      "check `bitIndex+1 > BitSize` wraps for index 2^32-1 (still a panic, as the documented precondition says)."]
+      "check `bitIndex+1 > BitSize` wraps for index 2^32-1 (still a panic, as the documented precondition says);",
+      "`dev/disasm` prints the listing with `fmt.Printf(listing)`, so a `%` in a symbol is garbled on output (the",
+      "library's disassembler, which C14 judges, is right); pg and gdbm `Dump` clear the handle's language as a",
+      "side effect; with a first function configured, its answer replaces the cache's last value at every start of",
+      "an engine, so a persisted session that ends right after a HALT appends the first function's content rather",
+      "than the last loaded value (the first function is outside the listed properties; C07 does not use one)."]
 findings = "\n".join(f)
 rows = []
 for mf in sorted(glob.glob(V + '/seeded/*/meta.json')):
@@ -47,7 +52,13 @@ seeded = ["## 9. Seeded changes and which checks catch them", "",
           "(nothing from /verif), each confirmed by me in a scratch worktree (suite passes, demonstration",
           "fails with the change and passes without) before it was kept under `/verif/seeded/<id>/`",
           "(`patch.diff`, demonstration, `meta.json`). `caught by` = the registered check(s) that report a",
-          "VIOLATION with the patch applied to /repo (tier, and what had to be strengthened first).", "",
+          "VIOLATION with the patch applied (tier, and what had to be strengthened first). Round 1 = m1/m2,",
+          "round 2 (agents told what round 1 had done, asked for rarer triggers) = m3/m4. `tools_seed_verify.sh`",
+          "re-confirms all of them against the current trees and writes `seeded/VERIFY.md`; patches made against an",
+          "older /repo HEAD were re-based where a later `fix:` commit touched the same lines (C01-m1, C13-m4,",
+          "C17-m3). The checks run against a scratch worktree with the patch applied (`VERIF_REPO`), which is the",
+          "same build as `git -C /repo apply` + check + `git -C /repo checkout -- .` (`IN_REPO=1 tools_seed.sh`",
+          "does it literally) but leaves /repo alone while other checks are running.", "",
           "| id | property | change | needs to manifest | caught by |", "|---|---|---|---|---|"] + rows
 if not rows:
     seeded.append("| (none recorded yet) | | | | |")
